@@ -1104,3 +1104,113 @@ pub fn mixed_type_join_key(p: &LogicalPlan) -> Option<String> {
     });
     hit
 }
+
+// ---------------------------------------------------------------------------
+// key-packing profile (PackedJoinKeys / PackedGroupKeys)
+// ---------------------------------------------------------------------------
+
+/// Tables for the rules that encode two integer keys as one (`a*K + b`, `K` and
+/// the bit widths from footer statistics). Every integer column is non-negative
+/// and NULL-free in its two key columns (the rules' gate) and has its OWN
+/// domain width, so that across a two-key join the four columns' maxima come in
+/// every order — the encoding is injective only if K covers the larger of the
+/// two "second" keys, the shift only if it covers the larger "first" key.
+fn pack_table(name: &'static str, max_rows: usize) -> BoxedStrategy<Table> {
+    let width = || prop_oneof![Just(2u32), Just(3), Just(4), Just(5), Just(8), Just(9), Just(17), Just(40), Just(70_000)];
+    (
+        width(),
+        width(),
+        width(),
+        // INTEGER or BIGINT keys (one choice per table: the rules decline mixed widths)
+        any::<bool>(),
+        2..=max_rows.max(2),
+        proptest::collection::vec(proptest::collection::vec(any::<u32>(), 4), max_rows.max(2)),
+        prop_oneof![3 => Just(0u32), 1 => Just(25u32)],
+    )
+        .prop_map(move |(w0, w1, w2, int32, n, cells, c_null_pct)| {
+            let kt = if int32 { ColType::Int32 } else { ColType::Int };
+            let cols = vec![
+                Column { name: format!("{}a", name), ty: kt },
+                Column { name: format!("{}b", name), ty: kt },
+                Column { name: format!("{}c", name), ty: kt },
+                Column { name: format!("{}d", name), ty: ColType::Int },
+            ];
+            let rows = (0..n)
+                .map(|i| {
+                    let c = &cells[i];
+                    vec![
+                        Value::Int((c[0] % w0) as i64),
+                        Value::Int((c[1] % w1) as i64),
+                        if c[2] % 100 < c_null_pct { Value::Null } else { Value::Int((c[2] / 100 % w2) as i64) },
+                        Value::Int((c[3] % 7) as i64),
+                    ]
+                })
+                .collect();
+            Table { name: name.to_string(), cols, rows }
+        })
+        .boxed()
+}
+
+pub fn pack_tables(max_rows: usize) -> BoxedStrategy<Vec<Table>> {
+    (2usize..=3)
+        .prop_flat_map(move |n| {
+            let names = ["r", "s", "u"];
+            (0..n).map(|i| pack_table(names[i], max_rows)).collect::<Vec<_>>()
+        })
+        .boxed()
+}
+
+/// Statements for the packing profile: two-column inner equi-joins (plain and
+/// aggregated above) and GROUP BY over two integer keys.
+pub fn gen_statement_packing(tables: &[Table], tape: Vec<u16>) -> (Query, Vec<String>) {
+    let profile = core_profile();
+    let mut b = Builder::new(tape, &profile, tables);
+    b.core = true;
+    let q = match b.g.t.pick(10) {
+        0..=4 => {
+            b.feat("shape:join_2col");
+            b.plain_query(true, false)
+        }
+        5 | 6 => {
+            b.feat("shape:agg_2int");
+            b.agg_query(2)
+        }
+        7 | 8 => {
+            b.feat("shape:agg_sum");
+            b.agg_query(1)
+        }
+        _ => {
+            b.feat("shape:agg_free");
+            b.agg_query(0)
+        }
+    };
+    (q, b.feats.clone())
+}
+
+pub fn opt_case_strategy_packing(tier: Tier) -> BoxedStrategy<OptCase> {
+    let max_rows = tier.pick(14, 40);
+    (
+        pack_tables(max_rows),
+        proptest::collection::vec(any::<u16>(), 0..200),
+        proptest::collection::vec(parquet_layout_strategy(max_rows), 3),
+        proptest::collection::vec(proptest::collection::vec(0..=max_rows, 0..3), 3),
+    )
+        .prop_map(move |(tables, tape, layouts, cuts)| {
+            let (query, features) = gen_statement_packing(&tables, tape);
+            let n = tables.len();
+            OptCase {
+                sql_case: SqlCase { tables, query, cuts: cuts.into_iter().take(n).collect(), features },
+                layouts: layouts
+                    .into_iter()
+                    .take(n)
+                    .map(|mut l| {
+                        if l.stats == 0 {
+                            l.stats = 1;
+                        }
+                        l
+                    })
+                    .collect(),
+            }
+        })
+        .boxed()
+}
